@@ -158,7 +158,12 @@ class World:
         if name not in self.classes:
             # distinct classes; with case["same_name"] they all carry the same __name__ (identity, not the name, is what a waiter waits for)
             base = (self.case.get("derive") or {}).get(name)       # a signal class deriving from another signal class (dispatch is by exact class)
-            self.classes[name] = type("Same" if self.case.get("same_name") else name, (self.cls(base) if base else AbstractSignal,), {})
+            body = {}
+            if self.case.get("prio_property") and not base:
+                # a signal class that computes its priority (overrides the public `priority` property; the base class's private field keeps its default)
+                def __init__(s_, source, priority=0): AbstractSignal.__init__(s_, source); s_._vp = priority
+                body = {"__init__": __init__, "priority": property(lambda s_: s_._vp)}
+            self.classes[name] = type("Same" if self.case.get("same_name") else name, (self.cls(base) if base else AbstractSignal,), body)
         return self.classes[name]
     def act(self, a, me=None):
         xlog(("api",) + tuple(a))
@@ -194,6 +199,7 @@ class World:
         elif k == "close_sig": self.screens[a[1]].close()
         elif k == "redraw_sig": self.screens[a[1]].redraw()
         elif k == "sched_redraw": sch.redraw()
+        elif k == "set_width": App.get_configuration().width = a[1]       # (adapter-only: the model's width is a constant of the program)
         elif k == "get_user_input": self.screens[a[1]].get_user_input("msg", a[2]); LOG.append(("gui<",))
         else: raise AssertionError(a)
 
